@@ -1,8 +1,110 @@
 /-
-C10 (round 4) — helper lemmas for `Model/C10Alloc.lean`.
+C10 (round 4) — helper lemmas for `Model/C10Alloc.lean`: membership characterisations of the write lists.
 -/
 import Mahotas.Model.C10Alloc
+import Mahotas.Generated.Guards
+import Mathlib.Tactic.Linarith
+import Mathlib.Tactic.Ring
 namespace Mahotas.C10Alloc
 open Mahotas
+
+theorem within_iff (n : Nat) (ws : List Int) : within n ws = true ↔ ∀ i ∈ ws, 0 ≤ i ∧ i < (n : Int) := by
+  simp [within]
+
+theorem covers_iff (n : Nat) (ws : List Int) : covers n ws = true ↔ ∀ i : Nat, i < n → (i : Int) ∈ ws := by
+  simp [covers]
+
+theorem readsDefined_iff (ws rs : List Int) : readsDefined ws rs = true ↔ ∀ i ∈ rs, i ∈ ws := by
+  simp [readsDefined]
+
+theorem mem_fillWrites (n : Nat) (i : Int) : i ∈ fillWrites n ↔ 0 ≤ i ∧ i < (n : Int) := by
+  simp only [fillWrites, List.mem_map, List.mem_range, Int.ofNat_eq_natCast]
+  constructor
+  · rintro ⟨a, ha, rfl⟩; omega
+  · rintro ⟨h0, h1⟩; exact ⟨i.toNat, by omega, by omega⟩
+
+theorem mem_pixelGo (k : Nat) (r i : Int) : i ∈ pixelGo k r ↔ r ≤ i ∧ i < r + k := by
+  induction k generalizing r with
+  | zero => simp [pixelGo]
+  | succ k ih =>
+    simp only [pixelGo, List.mem_cons, ih]
+    push_cast; omega
+
+theorem mem_pixelWrites (n : Nat) (i : Int) : i ∈ pixelWrites n ↔ 0 ≤ i ∧ i < (n : Int) := by
+  simp [pixelWrites, mem_pixelGo]
+
+theorem mem_pairsGo (k : Nat) (o i : Int) : i ∈ pairsGo k o ↔ o ≤ i ∧ i < o + 2 * k := by
+  induction k generalizing o with
+  | zero => simp [pairsGo]
+  | succ k ih =>
+    simp only [pairsGo, List.mem_cons, ih]
+    push_cast; omega
+
+theorem mem_grid (n0 n1 : Nat) (i : Int) :
+    (i ∈ (List.range n0).flatMap fun y => (List.range n1).map fun x => Int.ofNat y * Int.ofNat n1 + Int.ofNat x) ↔
+      ∃ y x : Nat, y < n0 ∧ x < n1 ∧ i = (y : Int) * n1 + x := by
+  simp only [List.mem_flatMap, List.mem_map, List.mem_range, Int.ofNat_eq_natCast]
+  constructor
+  · rintro ⟨y, hy, x, hx, rfl⟩; exact ⟨y, x, hy, hx, rfl⟩
+  · rintro ⟨y, x, hy, hx, rfl⟩; exact ⟨y, hy, x, hx, rfl⟩
+
+theorem grid_lt (n0 n1 y x : Nat) (hy : y < n0) (hx : x < n1) : (y : Int) * n1 + x < ((n0 * n1 : Nat) : Int) := by
+  have h : (y + 1) * n1 ≤ n0 * n1 := Nat.mul_le_mul_right n1 hy
+  have h2 : y * n1 + x < n0 * n1 := by
+    calc y * n1 + x < y * n1 + n1 := by omega
+      _ = (y + 1) * n1 := by ring
+      _ ≤ n0 * n1 := h
+  exact_mod_cast h2
+
+theorem grid_within (n0 n1 : Nat) :
+    ∀ i ∈ ((List.range n0).flatMap fun y => (List.range n1).map fun x => Int.ofNat y * Int.ofNat n1 + Int.ofNat x),
+      0 ≤ i ∧ i < ((n0 * n1 : Nat) : Int) := by
+  intro i hi
+  obtain ⟨y, x, hy, hx, rfl⟩ := (mem_grid n0 n1 i).mp hi
+  exact ⟨by positivity, grid_lt n0 n1 y x hy hx⟩
+
+theorem grid_covers (n0 n1 : Nat) (i : Nat) (h : i < n0 * n1) :
+    (i : Int) ∈ ((List.range n0).flatMap fun y => (List.range n1).map fun x => Int.ofNat y * Int.ofNat n1 + Int.ofNat x) := by
+  rw [mem_grid]
+  have h1 : 0 < n1 := by
+    rcases Nat.eq_zero_or_pos n1 with h0 | h0
+    · subst h0; simp at h
+    · exact h0
+  refine ⟨i / n1, i % n1, ?_, Nat.mod_lt _ h1, ?_⟩
+  · exact (Nat.div_lt_iff_lt_mul h1).mpr h
+  · have := Nat.div_add_mod i n1
+    have h2 : i = (i / n1) * n1 + i % n1 := by rw [Nat.mul_comm]; omega
+    exact_mod_cast h2
+
+theorem mem_bboxInit (nd : Nat) (i : Int) :
+    i ∈ bboxInitWrites nd ↔ ∃ j : Nat, j < nd ∧ (i = 2 * (j : Int) ∨ i = 2 * (j : Int) + 1) := by
+  simp [bboxInitWrites]
+
+theorem mem_complexHalves (n : Nat) (i : Int) :
+    i ∈ complexHalvesWrites n ↔ ∃ j : Nat, j < n ∧ (i = 2 * (j : Int) ∨ i = 2 * (j : Int) + 1) := by
+  simp only [complexHalvesWrites, List.mem_append, List.mem_map, List.mem_range, Int.ofNat_eq_natCast]
+  constructor
+  · rintro (⟨j, hj, rfl⟩ | ⟨j, hj, rfl⟩)
+    · exact ⟨j, hj, Or.inl rfl⟩
+    · exact ⟨j, hj, Or.inr rfl⟩
+  · rintro ⟨j, hj, rfl | rfl⟩
+    · exact Or.inl ⟨j, hj, rfl⟩
+    · exact Or.inr ⟨j, hj, rfl⟩
+
+theorem mem_compressGo (mask : List Bool) (j i : Int) :
+    i ∈ compressGo mask j ↔ j ≤ i ∧ i < j + (mask.filter id).length := by
+  induction mask generalizing j with
+  | nil => simp [compressGo]
+  | cons b ms ih =>
+    cases b
+    · simp [compressGo, ih]
+    · simp only [compressGo, List.mem_cons, ih, List.filter_cons_of_pos, id_eq, List.length_cons]
+      push_cast; omega
+
+theorem mem_gmIndices (n l i : Int) : i ∈ gmIndices n l ↔ 0 ≤ i ∧ i < gmSize n l := by
+  simp only [gmIndices, gmSize, List.mem_map, List.mem_range, Int.ofNat_eq_natCast]
+  constructor
+  · rintro ⟨a, ha, rfl⟩; omega
+  · rintro ⟨h0, h1⟩; exact ⟨i.toNat, by omega, by omega⟩
 
 end Mahotas.C10Alloc
